@@ -139,6 +139,23 @@ Proof.
 Qed.
 Print Assumptions C15_pull_keeps_io.
 
+(* ITEM access: wf.inputs[key].value = v and wf.inputs[key] = wf.outputs[okey] act on exactly the
+   child channels the panels hold under those keys -- for EVERY key, a name that one of the panel's
+   own attributes carries (items, labels, ready, ...) included, since panel[key] only ever looks
+   into the panel's channels *)
+Theorem C15_item_assign_through : forall st key v st', item_assign st key v = (st', ROk) ->
+  exists p id, build_io st DIn = Some p /\ In (key, id) p /\
+    val st' id = Some v /\ (forall id', id' <> id -> val st' id' = val st id') /\ same_graph st st'.
+Proof. exact item_assign_through. Qed.
+Print Assumptions C15_item_assign_through.
+
+Theorem C15_item_connect_through : forall st key okey st', wconnect2 st key okey = (st', ROk) ->
+  exists p po id o, build_io st DIn = Some p /\ build_io st DOut = Some po /\
+    In (key, id) p /\ In (okey, o) po /\ In (id, o) (w_conns st') /\
+    connected st' id = true /\ connected st' o = true /\ same_struct st st'.
+Proof. exact wconnect2_through. Qed.
+Print Assumptions C15_item_connect_through.
+
 (* ---- run returns the dictionary of the outputs -------------------------------------------------------- *)
 Theorem C15_return : forall st kw st' ret, run_wf st kw = (st', RRet ret) ->
   same_graph st st' /\
@@ -311,3 +328,17 @@ Example C15_pull_digit_labels :
   build_io st' DOut = Some [("last__y", 5)] /\ val st' 5 = Some (enc 0 3) /\
   w_cache st <> None /\ w_cache st' = None.
 Proof. vm_compute. repeat split; try reflexivity. discriminate. Qed.
+
+(* the demo of the panel-attribute names: tag: items -> labels, cnt: (ready, fetch) -> (connected,
+   to_list), exposed under such names; assignment and connection by item reach the children *)
+Example C15_keys_named_like_panel_attributes :
+  let st := hist [OAdd 9 "tag"; OAdd 10 "cnt";
+                  OSetMap DIn (Some [("tag__items", Some "items")]);
+                  OSetMap DOut (Some [("tag__labels", Some "labels")])] in
+  build_io st DIn = Some [("items", 0); ("cnt__ready", 2); ("cnt__fetch", 3)] /\
+  build_io st DOut = Some [("labels", 1); ("cnt__connected", 4); ("cnt__to_list", 5)] /\
+  val (fst (item_assign st "items" (enc 0 5))) 0 = Some (enc 0 5) /\
+  build_io (fst (wconnect2 st "cnt__ready" "labels")) DIn = Some [("items", 0); ("cnt__fetch", 3)] /\
+  snd (run_wf (fst (wconnect2 (fst (item_assign st "items" (enc 0 5))) "cnt__ready" "labels")) [])
+    = RRet [("labels", Some (enc 0 22)); ("cnt__connected", Some (enc 0 25)); ("cnt__to_list", Some (enc 0 16))].
+Proof. vm_compute. repeat split; reflexivity. Qed.
